@@ -54,8 +54,10 @@ def gen_case(rng, i, tier):
         extra["time"] = 2
         adims.append("time")
     rng.shuffle(adims)
+    # a metric may depend on a non-grid dimension too (a time-dependent cell thickness): only when the array has it
+    tdep = [nm for _, lst in reg for nm, _ in lst if rng.random() < 0.15] if "time" in extra else []
     return {"layout": layout, "registry": reg, "apos": apos, "query": q, "adims": adims, "extra": extra,
-            "mseed": rng.getrandbits(31), "dseed": rng.getrandbits(31), "periodic": rng.random() < 0.3}
+            "mseed": rng.getrandbits(31), "dseed": rng.getrandbits(31), "periodic": rng.random() < 0.3, "time_dependent": tdep}
 
 
 def build(desc):
@@ -69,6 +71,8 @@ def build(desc):
         names = []
         for nm, pos in lst:
             dims = [cm[a][p] for a, p in zip(sub, pos)]
+            if nm in desc.get("time_dependent", []):
+                dims = dims + ["time"]
             shp = [ds.sizes[d] for d in dims]
             ds[nm] = (dims, r.integers(1, 9, size=shp).astype(float))
             names.append(nm)
